@@ -40,12 +40,29 @@ partial def normDoc : List Node → List Node
   | .verb a ma :: rest => .verb a ma :: normDoc rest
   | .el nm d at_ k cs :: rest => .el nm d at_ k (normDoc cs) :: normDoc rest
 
+/-- position just after the first occurrence of `pat` in `bs` (searching from offset `i`) -/
+partial def findAfter (pat bs : Bytes) (i : Nat) : Option Nat :=
+  if i + pat.length > bs.length then none
+  else if (bs.drop i).take pat.length == pat then some (i + pat.length) else findAfter pat bs (i + 1)
+
+/-- a verbatim piece that is a comment / declaration / processing instruction FOLLOWED by text (the generator emits
+`<!doctype html>` + newline as one piece): cut after the construct -/
+def splitDecl (raw : Bytes) : Bytes × Bytes :=
+  let cut : Option Nat :=
+    if raw.take 4 == [60, 33, 45, 45] then findAfter [45, 45, 62] raw 4
+    else if raw.take 2 == [60, 33] || raw.take 2 == [60, 63] then findAfter [62] raw 2
+    else none
+  match cut with
+  | some n => (raw.take n, raw.drop n)
+  | none => (raw, [])
+
 /-- for the universal theorem: adjacent TEXT pieces merged (the grammar forbids two adjacent texts; a text next to a comment
 is fine), empty pieces dropped; the serialisation is the same -/
 partial def normDocU : List Node → List Node
   | [] => []
   | .verb a ma :: rest =>
     if a.isEmpty then normDocU rest
+    else if !(splitDecl a).2.isEmpty then normDocU (.verb (splitDecl a).1 ma :: .verb (splitDecl a).2 [] :: rest)
     else match rest with
       | .verb b mb :: rest' =>
         if b.isEmpty then normDocU (.verb a ma :: rest')
